@@ -232,6 +232,10 @@ func (fs *Store) VisitMailboxes(f func([]storage.Message) (cont bool)) error {
 	for _, name1 := range names1 {
 		verifhook.Yield("file.visit.level1 " + name1)
 		names2, err := readDirNames(fs.mailPath, name1)
+		if os.IsNotExist(err) {
+			// The last mailbox below this directory was removed since it was listed.
+			continue
+		}
 		if err != nil {
 			return err
 		}
@@ -240,6 +244,9 @@ func (fs *Store) VisitMailboxes(f func([]storage.Message) (cont bool)) error {
 		for _, name2 := range names2 {
 			verifhook.Yield("file.visit.level2 " + name1 + "/" + name2)
 			names3, err := readDirNames(fs.mailPath, name1, name2)
+			if os.IsNotExist(err) {
+				continue
+			}
 			if err != nil {
 				return err
 			}
